@@ -42,7 +42,7 @@ def inI64 (x : Int) : Bool := i64Min ≤ x && x ≤ i64Max
 inductive R (α : Type)
   | ok (a : α)
   | ub (what : String)      -- would be undefined / unintended wrap / out-of-bounds in C
-deriving Repr
+deriving Repr, DecidableEq
 
 def R.isUb {α : Type} : R α → Bool
   | .ub _ => true
@@ -80,7 +80,7 @@ inductive HexOut
   | ub (what : String)
   | tooLarge                                     -- guard hit: 400 / -1
   | ok (te : Int) (ndigits : Nat) (rest : Bytes) -- rest starts at the first non-hex byte
-deriving Repr
+deriving Repr, DecidableEq
 
 /-- `for (u; (u = hex2int(*s)) != 0xFF; ++s) { if (te > GUARD) error; te <<= 4; te |= u; }` -/
 def ckHex (guard : Int) : Bytes → Int → Nat → HexOut
@@ -119,7 +119,7 @@ inductive CkOut
   | err (status : Nat)
   | ok (te : Int) (moved : Nat) (rest : Nat) (done : Bool)
   | unmodelled
-deriving Repr
+deriving Repr, DecidableEq
 
 /-- validity of the text after the hex digits in h1_chunked(): `after` starts at the first
     non-hex byte of the line; `k` hex digits were read; `hsz` = line length incl. LF -/
@@ -416,15 +416,22 @@ inductive ContOut
   | incomplete (need : Nat) (calm : Bool)      -- returns n+9 / n : wait for more data
   | goaway (code : Nat)                        -- returns 0
   | merged (m : Nat) (buf : Bytes) (calm : Bool)   -- returns m; `calm` = GOAWAY(NO_ERROR) after 32 frames
+deriving Repr, DecidableEq
+
+/-- early outcomes of the scanning loop -/
+inductive ScanStop
+  | ub (what : String)
+  | incomplete (need : Nat)
+  | goaway (code : Nat)
 deriving Repr
 
 /-- scanning loop of h2_recv_continuation(): returns the offset after the last
     CONTINUATION frame and the number of frames, or the early outcome -/
-def contScan (fsize id : Nat) (buf : Bytes) : Nat → Nat → Nat → Sum (ContOut × Nat) (Nat × Nat)
+def contScan (fsize id : Nat) (buf : Bytes) : Nat → Nat → Nat → Sum (ScanStop × Nat) (Nat × Nat)
   | 0, _, loops => .inl (.ub "fuel", loops)
   | fuel + 1, n, loops =>
     if n + 9 > u32Max then .inl (.ub "n+9 wraps", loops)
-    else if buf.length < n + 9 then .inl (.incomplete (n + 9) false, loops)
+    else if buf.length < n + 9 then .inl (.incomplete (n + 9), loops)
     else if buf.getD (n + 3) 0 ≠ 9 then .inl (.goaway 1, loops)
     else
       let flags := buf.getD (n + 4) 0
@@ -435,7 +442,7 @@ def contScan (fsize id : Nat) (buf : Bytes) : Nat → Nat → Nat → Sum (ContO
         let n' := n + 9 + flen
         if n' > u32Max then .inl (.ub "n wraps", loops)
         else if n' ≥ Extracted.h2ContCap then .inl (.goaway 6, loops)
-        else if buf.length < n' then .inl (.incomplete n' false, loops)
+        else if buf.length < n' then .inl (.incomplete n', loops)
         else if has flags flagEndHeaders then .inr (n', loops + 1)
         else contScan fsize id buf fuel n' (loops + 1)
 
@@ -466,8 +473,9 @@ def h2Cont (fsize : Nat) (buf : Bytes) : ContOut :=
   let n0 := 9 + flen0
   let id := u31be buf 5
   match contScan fsize id buf (buf.length + 1) n0 0 with
-  | .inl (.incomplete need _, loops) => .incomplete need (loops ≥ 32)
-  | .inl (o, _) => o
+  | .inl (.ub w, _) => .ub w
+  | .inl (.incomplete need, loops) => .incomplete need (loops ≥ 32)
+  | .inl (.goaway code, _) => .goaway code
   | .inr (_, loops) =>
     let flags0 := buf.getD 4 0
     let padded := has flags0 flagPadded
